@@ -41,6 +41,95 @@ def check_linear(res, cfg, facts, in_specs, impl, ref, **kw):
     return core.run_paths(res, lambda: _check_linear_path(res, cfg, facts, in_specs, impl, ref, **kw))
 
 
+PIECEWISE_SCALES = (Fraction(1), Fraction(1, 2 ** 30), Fraction(1, 2 ** 60))
+
+
+def _def_closure(p, seen):
+    for a in p.atoms():
+        if a in seen:
+            continue
+        seen.add(a)
+        k = P.ATOMS.kind[a]
+        if k in ('abs', 'lin', 'opq'):
+            _def_closure(P.ATOMS.info[a], seen)
+        elif k == 'ite':
+            c, u, v = P.ATOMS.info[a]
+            _def_closure(u, seen); _def_closure(v, seen)
+            for q in smt._cond_polys(c):
+                _def_closure(q, seen)
+
+
+def _piecewise_ok(souts):
+    """outputs are built from the inputs with +, scalar *, abs and value selection (torch.where / clamp on symbolic conditions) only"""
+    seen = set()
+    for _, t in souts:
+        if t is None:
+            continue
+        for p in t.a.reshape(-1):
+            if not p.is_linear():
+                return False
+            _def_closure(p, seen)
+    return all(P.ATOMS.kind[a] in ('in', 'abs', 'ite', 'lin', 'opq', 'free') for a in seen)
+
+
+def _check_piecewise(res, facts, ids, all_ids, souts, rows_all, scale, tau_rel, xs, r1, impl, ref, rpw, what, max_sat, timeout_ms):
+    """the implementation selects values by comparing magnitudes (piecewise linear): it must still equal the linear reference,
+    on the unit box AND on small boxes (the property quantifies over all reals and the reference is homogeneous, so a fixed
+    absolute threshold inside the implementation shows up once the inputs are scaled down)"""
+    envp = P.AtomEnv()
+    for i, x in zip(ids, xs):
+        for a, v in zip(i.reshape(-1), x.reshape(-1)):
+            envp[int(a)] = float(v)
+    dev = 0.0
+    for (nm, t), (_, rr) in zip(souts, r1[1]):
+        if t is None:
+            continue
+        sv = np.array([p.evalf(envp) for p in t.a.reshape(-1)])
+        rv = rr.detach().numpy().reshape(-1)
+        if sv.shape != rv.shape:
+            res.status = 'error'; res.trace = 'shape of %s differs between symbolic and real run' % nm; return None
+        if sv.size:
+            dev = max(dev, float(np.abs(sv - rv).max()))
+    res.validated = dev if res.validated is None else max(res.validated, dev)
+    if dev > 1e-9 * scale:
+        res.status = 'error'; res.trace = 'symbolic values deviate from real torch by %g (scale %g)' % (dev, scale); return None
+    st = res.stats or smt.Stats()
+    res.notes.append('piecewise-linear implementation: compared on boxes of radius %s' % [str(s_) for s_ in PIECEWISE_SCALES])
+    names = [nm for nm, _ in souts]
+    found = 0
+    for s_ in PIECEWISE_SCALES:
+        solver = smt.Solver(stats=st, timeout_ms=timeout_ms, default_box=(-s_, s_))
+        tau = Fraction(tau_rel).limit_denominator(10 ** 15) * Fraction(scale) * s_
+        for (nm, t), R in zip(souts, rows_all):
+            if t is None:
+                continue
+            rows = core.ref_poly_rows(R, all_ids)
+            for k, (p, r) in enumerate(zip(t.a.reshape(-1), rows)):
+                d = p - r
+                if not d.is_zero():
+                    res.nontrivial = True
+                v, model = solver.decide(d, tau, with_defs=True, label='%s[%d]@%s' % (nm, k, s_))
+                if v == 'sat':
+                    xv = [core.model_array(model, i) for i in ids]
+                    rep = replay_values(impl, ref, xv, names.index(nm), k, float(tau), rpw)
+                    res.violations.append(dict(what='%s %s[%d] differs from the reference by %.3g (tau %.3g) for inputs of magnitude <= %.3g' % (what, nm, k, rep['diff'], float(tau), float(s_)),
+                                               facts=dict(facts, input_scale=float(s_)), replay=dict(kind='values', xs=[x.tolist() for x in xv], out=names.index(nm), k=int(k), tau=float(tau)),
+                                               reproduced=rep['reproduced']))
+                    found += 1
+                elif v != 'unsat':
+                    res.status = 'inconclusive'; res.notes.append('solver answered %s on %s[%d] (box %s)' % (v, nm, k, s_))
+                if found >= max_sat:
+                    break
+            if found >= max_sat:
+                break
+        if found:
+            break
+    res.stats = st
+    if res.violations:
+        res.status = 'violation'
+    return None
+
+
 def _pc_point(ids, pc):
     """a dyadic point on the current path: list of arrays shaped like ids, or None"""
     import z3 as _z3
@@ -142,6 +231,17 @@ def _check_linear_path(res, cfg, facts, in_specs, impl, ref, tau_rel=1e-9, allow
             res.violations.append(dict(what='%s %s has shape %s, reference %s' % (what, nm, gs, es), facts=facts,
                                        replay=dict(kind='shape', name=nm), reproduced=rs == gs))
             return None
+    # ---- never-written memory (torch.empty & co: arbitrary contents) must not reach a result ---------------
+    hit = symtorch.uninit_atoms([p for _, t in souts if t is not None and t.a.dtype == object for p in t.a.reshape(-1)])
+    if hit:
+        with symtorch.poison_uninit():
+            rp = core.outcome(lambda: impl(rpw, [rt.tensor(x, dtype=rt.float64) for x in xs]))
+        bad = rp[0] == 'ok' and any(t is not None and not bool(rt.isfinite(t).all()) for _, t in rp[1])
+        nm_ = [nm for nm, t in souts if t is not None and t.a.dtype == object and symtorch.uninit_atoms(list(t.a.reshape(-1)))]
+        res.status = 'violation'
+        res.violations.append(dict(what='%s %s depends on uninitialised memory (torch.empty / new_empty / empty_like contents, %d elements)' % (what, nm_[:3], len(hit)),
+                                   facts=dict(facts, uninitialised=True), replay=dict(kind='uninit', xs=[x.tolist() for x in xs]), reproduced=bool(bad)))
+        return None
     # ---- engine validation on the whole operator (single-path runs) or at a point on the path ------
     if pc:
         rb = ('ok', None)
@@ -180,6 +280,8 @@ def _check_linear_path(res, cfg, facts, in_specs, impl, ref, tau_rel=1e-9, allow
         try:
             M, c0 = core.lin_table(t.a, all_ids)
         except ValueError as e:
+            if _piecewise_ok(souts):
+                return _check_piecewise(res, facts, ids, all_ids, souts, rows_all, scale, tau_rel, xs, r1, impl, ref, rpw, what, max_sat, timeout_ms)
             res.status = 'inconclusive'; res.notes.append('output %s is not linear in the inputs: %s' % (nm, e))
             return None
         Rm = _unbatch(rr, n, B)
@@ -269,12 +371,23 @@ def replay_values(impl, ref, xv, oi, k, tau, rpw=None):
     return dict(reproduced=diff > tau / 2, diff=diff)
 
 
+def replay_uninit(payload, in_specs, impl):
+    rt = symtorch.real_torch()
+    xs = [np.array(x) for x in payload['replay']['xs']]
+    with symtorch.poison_uninit():
+        rp = core.outcome(lambda: impl(symtorch.real(), [rt.tensor(x, dtype=rt.float64) for x in xs]))
+    bad = rp[0] == 'ok' and any(t is not None and not bool(rt.isfinite(t).all()) for _, t in rp[1])
+    return dict(reproduced=bool(bad), detail='outputs are non-finite once never-written memory is poisoned with NaN' if bad else str(rp[:2]))
+
+
 def replay_generic(payload, in_specs, impl, ref):
     rp = payload['replay']
     rt = symtorch.real_torch()
     if rp['kind'] == 'values':
         r = replay_values(impl, ref, [np.array(x) for x in rp['xs']], rp['out'], rp['k'], rp['tau'])
         return dict(reproduced=r['reproduced'], detail=r)
+    if rp['kind'] == 'uninit':
+        return replay_uninit(payload, in_specs, impl)
     xs = [np.zeros(s) for _, s in in_specs]
     ro = core.outcome(lambda: impl(symtorch.real(), [rt.tensor(x, dtype=rt.float64) for x in xs]))
     oo = core.outcome(lambda: ref(xs))
